@@ -111,6 +111,33 @@ BUILDERS = [
 HEAD = 'import ipv4;\nimport eth;\nimport text;\nimport std;\nimport tls;\nimport vxlan;\nimport gre;\nimport io;\n'
 
 
+def one(c, r, name, hdr, mk, b, i):
+    lets = []
+    e = spell(r, b, lets)
+    decl, stmt = mk(e, False)
+    src = (HEAD + '\n'.join(lets) + '\n' + decl + '\n' + stmt + '\n').encode('utf-8')
+    impl, model = progdiff.run_both(c, src)
+    progdiff.compare(c, src, impl, model, 'payload:' + name, project=lambda f, h=hdr: f[h:], times=False)
+    rep = dict(src=src.decode("utf-8")[:600000], want=b.hex()[:400])
+    key = None
+    if impl['outcome'][0] == 'success':
+        recs = progdiff.pcap_records(impl['file'] or b'')
+        if len(recs) != 1:
+            c.violation('payload:count', '%s: expected one packet, got %d' % (name, len(recs)), rep)
+        else:
+            got = recs[0][1][hdr:]
+            if got != b:
+                c.violation('payload:%s' % name, 'payload on the wire differs from the bytes the script spelled (%d vs %d bytes)' % (len(got), len(b)), dict(rep, got=got.hex()[:400]))
+        if b: key = (name, hash(e), hash(b))
+        c.traces_validated += 1
+    elif impl['outcome'][0] == 'panic':
+        c.violation('payload:panic', 'panic: %s' % (impl['outcome'][1],), rep)
+    else:
+        c.violation('payload:rejected', '%s: a well-formed payload expression was rejected: %s' % (name, impl['outcome'],), rep)
+    c.count('builder:' + name)
+    c.case(key, dict(builder=name, expr=e[:200], n=len(b)) if key and i % 25 == 0 else None)
+
+
 def campaign(c):
     c.rule = RULE
     n = 300 if c.quick else 8000
@@ -120,30 +147,16 @@ def campaign(c):
         b = pick_bytes(r, 3000 if c.quick else 20000)
         if name in ('tcp-msg',) and i % 31 == 0 and not c.quick: b = r.bytes(65535 - 40)
         if name in ('frag-tail', 'frag-fragment', 'frag-datagram') and i % 3 == 0: b = r.bytes(r.choice([8191, 8192, 9000, 16384, 20000]))
-        lets = []
-        e = spell(r, b, lets)
-        decl, stmt = mk(e, False)
-        src = (HEAD + '\n'.join(lets) + '\n' + decl + '\n' + stmt + '\n').encode('utf-8')
-        impl, model = progdiff.run_both(c, src)
-        progdiff.compare(c, src, impl, model, 'payload:' + name, project=lambda f, h=hdr: f[h:], times=False)
-        rep = dict(src=src.decode('utf-8')[:3000], want=b.hex()[:400])
-        key = None
-        if impl['outcome'][0] == 'success':
-            recs = progdiff.pcap_records(impl['file'] or b'')
-            if len(recs) != 1:
-                c.violation('payload:count', '%s: expected one packet, got %d' % (name, len(recs)), rep)
-            else:
-                got = recs[0][1][hdr:]
-                if got != b:
-                    c.violation('payload:%s' % name, 'payload on the wire differs from the bytes the script spelled (%d vs %d bytes)' % (len(got), len(b)), dict(rep, got=got.hex()[:400]))
-            if b: key = (name, hash(e), hash(b))
-            c.traces_validated += 1
-        elif impl['outcome'][0] == 'panic':
-            c.violation('payload:panic', 'panic: %s' % (impl['outcome'][1],), rep)
-        else:
-            c.violation('payload:rejected', '%s: a well-formed payload expression was rejected: %s' % (name, impl['outcome'],), rep)
-        c.count('builder:' + name)
-        c.case(key, dict(builder=name, expr=e[:200], n=len(b)) if key and i % 25 == 0 else None)
+        one(c, r, name, hdr, mk, b, i)
+    # scale: every builder with payloads around 2^13 and close to the largest datagram; layer-2 builders beyond 2^16
+    for j, (name, hdr, mk) in enumerate(BUILDERS):
+        for size in ([8192, 65000] if c.quick else [8191, 8192, 8193, 16385, 32768, 65000]) + ([65536, 70001] if name == 'eth-frame' else []):
+            r = c.rng.fork('c05-big-%d-%d' % (j, size))
+            if name == 'len-prefixed' and size > 65535: continue
+            if name == 'frag-fragment' and size > 65528: continue
+            blk = r.bytes(251)
+            one(c, r, name, hdr, mk, (blk * (size // 251 + 1))[:size], 25 * j)
+            c.count('scale-payloads')
     # join helpers with empty parts in every position (leading, middle, trailing, all empty)
     import itertools
     for n in (1, 2, 3, 4):
